@@ -3757,7 +3757,8 @@ class C15(Prop):
                     behind += '[0]'
                     spec2 = spec2 + [(1, [48])]
             c = Case('nm%d' % i, ('$' + ''.join(parts) + seg + behind).encode('utf-8'), [doc], meta={'family': 'coq-name-path-error', 'nsteps': len(spec2)})
-            c.keyc = spec2
+            if not any(st[0] == 1 and st[1][0] == 45 for st in spec2):
+                c.keyc = spec2       # an index written with a sign is a one-entry union for the grammar: outside the premises (step_ok) of the theorem; sent as an oracle case only
             cases.append(c)
             expect[c.id] = exp_
             keyc_cases = True
@@ -4698,7 +4699,8 @@ class C20(EvalProp):
                 spec2 = spec2 + [(0, [122, 122])]
             c = Case('fd%d' % i, (text + seg + behind).encode('utf-8'), [doc], acc=r.random() < 0.2,
                      meta={'family': 'coq-foreign-at-depth', 'nsteps': len(spec2), 'expect_r0': 'tum:%s:%s:%s' % (hx(seg.encode('utf-8')), want, hx(core.KINDS[kind][1]))})
-            c.keyc = spec2
+            if not any(st[0] == 1 and st[1][0] == 45 for st in spec2):
+                c.keyc = spec2       # (a signed index is outside the premises of the theorem: oracle case only)
             cs.append(c)
         return cs
 
